@@ -4,6 +4,8 @@ import LunarVerif.Proofs.C18Publish
 import LunarVerif.Proofs.C18Expire
 import LunarVerif.Spec.C18Expire
 import LunarVerif.Proofs.C18VacuumQ
+import LunarVerif.Proofs.C18Observe
+import LunarVerif.Spec.C18Observe
 /-!
 # C18 — Concurrent transactions do not corrupt or share engine state
 
@@ -324,5 +326,35 @@ theorem vacuum_judge_holds (ttl tick : Nat) (ops : List (String ⊕ (Nat × Opti
     deadline removes B -/
 example : (advance 41 (advance 32 (vadd ({ ttl := 30, tick := 10 } : St) "A") 31 (some "B")) 71 none).map = [] := by
   decide
+
+/-! ## (h) Metrics observation of a quota is invisible to running transactions -/
+
+/-- Reading the quota for metrics changes no transaction's answer: the answers of the transactions' calls in
+    a script with metrics reads anywhere (any number, any instants) are the answers of the script with the
+    reads taken out — for every quota, every state and every script. -/
+theorem metrics_reads_transparent (c : Observe.Cfg) (l : C01.Lvl) (ops : List Observe.Op) :
+    (Observe.run c l ops).filter (fun p => Observe.keep p.1) = Observe.run c l (ops.filter Observe.keep) :=
+  Observe.run_filter c ops l
+
+/-- … and the quota is left in the state the transactions alone leave it in. -/
+theorem metrics_reads_leave_state (c : Observe.Cfg) (l : C01.Lvl) (ops : List Observe.Op) :
+    Observe.final c l ops = Observe.final c l (ops.filter Observe.keep) :=
+  Observe.final_filter c ops l
+
+/-- A transaction that the quota counted within the limit gets its admission, however many metrics reads
+    fall between its `Inc` and its `Allowed`. -/
+theorem pending_verdict_survives_reads (c : Observe.Cfg) (l : C01.Lvl) (r t : Nat) (reads : List Observe.Op)
+    (hr : ∀ o ∈ reads, o.isRead = true)
+    (h : (C01.incLevel c.max c.win l r t 1).2 = .increased) :
+    (Observe.step c (Observe.final c (Observe.step c l (.inc r t)).1 reads) (.allowed r)).2 = .verdict true := by
+  rw [Observe.final_reads c reads hr]
+  show Observe.Ans.verdict (C01.allowedLevel (C01.incLevel c.max c.win l r t 1).1 r).2 = _
+  rw [Observe.inc_increased_pending _ _ _ _ _ _ h]
+
+/-- non-vacuity: request 2 is counted at second 58 of a 60 s window (2 of 5), metrics are read after the window
+    has ended, and request 2 is admitted -/
+example : (Observe.run ⟨5, 60 * C01.nsPerSec⟩ C01.Lvl.init
+    [.inc 1 0, .allowed 1, .inc 2 (58 * C01.nsPerSec), .read, .allowed 2]).map (·.2) =
+    [.ok, .verdict true, .ok, .shown 2, .verdict true] := by decide
 
 end LunarVerif.C18
